@@ -168,7 +168,9 @@ def run(ck):
     rd = facts.fn("Rock::IoState::read_")
     no_slice = E.m_cmp("<", E.m_is_mem("Rock::IoState::sidCurrent"), E.m_const(0))
     ck.require_fact("K1.rock-read-needs-slice", ck.flow(rd), ev_call({"DiskFile::read"}), no_slice, False, "theFile->read()", why="(a read beyond the entry's last slice would be issued)")
-    ck.require_response("K1.rock-read-needs-slice", rd, no_slice, True, ev_call("Rock::IoState::callReaderBack"), "callReaderBack()", term_kinds=("IfStmt",),
+    # a later assignment to sidCurrent makes the tested fact stale: the obligation then rests on the next test of sidCurrent < 0 (itself a trigger edge)
+    ck.require_response("K1.rock-read-needs-slice", rd, no_slice, True, ev_any(ev_call("Rock::IoState::callReaderBack"), ev_assign("Rock::IoState::sidCurrent")),
+                        "callReaderBack() (or a new sidCurrent, tested again)", term_kinds=("IfStmt",),
                         why="(a read past the last slice would neither be issued nor answered)")
     ck.rule("K1b Rock::IoState::read_: theFile->read() is issued only with the requested offset inside the current slice, i.e. with "
             "coreOff >= objOffset + currentReadableSlice().size established false *after* the last change of objOffset/sidCurrent (the slot walk must run until the "
